@@ -191,12 +191,15 @@ class Report:
             if exit_code == EXIT_OK:
                 exit_code = EXIT_CRASH
         self._write_evidence(verdicts, violations, known_hits, unknown)
-        if refuted or unknown:
+        bfail = [b for b in self.bounded if not b['ok']]
+        if refuted or unknown or bfail:
             os.makedirs(os.path.join(REPLAY_DIR, self.prop), exist_ok=True)
             with open(os.path.join(REPLAY_DIR, self.prop, '_not_proved.json'), 'w') as f:
                 json.dump([{'name': o['name'], 'verdict': o['verdict'], 'known': o.get('known_finding'),
                             'observed': (o.get('extra') or {}).get('observed'), 'detail': str(o.get('detail'))[:200]}
-                           for o in (refuted + unknown)[:20000]], f, indent=0)
+                           for o in (refuted + unknown)[:20000]] +
+                          [{'name': b['name'], 'verdict': 'bounded-failed', 'known': b.get('known_finding'), 'observed': None,
+                            'detail': str(b['detail'])[:300]} for b in bfail[:20000]], f, indent=0)
         if update_ledger:
             self._update_ledger(unknown)
         proved = verdicts.get('proved', 0)
